@@ -9,6 +9,8 @@
 //! observe : first-generation digest, or `reject:<stage>` when the source itself is not accepted
 //! oracle  : compile(P, dx, no-pipeline) = G1; compile(G1.text, dx, no-pipeline) must succeed and be
 //!           byte-identical to G1, with every resource on the same binding slot (group, name, location, count).
+mod reelab;
+
 use crate::compile_util::*;
 use crate::declgen;
 use crate::progen::*;
@@ -351,6 +353,9 @@ pub fn run(args: &Args, out: &mut Out) {
         for line in lines {
             if let Some(id) = line.strip_prefix("C04.fix\t") {
                 run_one(id, out, &mut hist);
+            } else if let Some(rest) = line.strip_prefix("C04.reelab\t") {
+                let src = reelab::unescape(rest.split('\t').next().unwrap_or(""));
+                reelab::run_source(&src, out, &mut hist);
             }
         }
         out.stat(&format!("{{\"mode\":\"replay\",\"hist\":{}}}", hist.json()));
@@ -381,6 +386,10 @@ pub fn run(args: &Args, out: &mut Out) {
             run_one(&format!("disk:{}|{}", root, entry), out, &mut hist);
         }
     }
+    // the re-elaboration stream: second-generation IR against first-generation IR, node by node
+    let mut re_hist = Hist::default();
+    reelab::run(args, out, &mut re_hist);
+    out.stat(&format!("{{\"stream\":\"reelab\",\"hist\":{}}}", re_hist.json()));
     out.stat(&format!(
         "{{\"generated\":{},\"literal_programs\":{},\"literal_kinds\":{},\"hist\":{}}}",
         n + n / 3,
